@@ -16,8 +16,54 @@ import (
 	"verif/h/refcodec"
 )
 
-// Shapes14: records per segment.
-var Shapes14 = []int{2, 3}
+// rec14 is one message of a base log: key, value, time relative to 1 s.
+type rec14 struct {
+	K, V string
+	DT   int64
+}
+
+// Log14 is a base log given segment by segment.
+type Log14 struct {
+	Name string
+	Segs [][]rec14
+}
+
+func uniform14(name string, segs, perSeg int) Log14 {
+	l := Log14{Name: name}
+	n := segs * perSeg
+	for i := 0; i < n; i++ {
+		key := string("ab"[i%2])
+		if i == n-2 {
+			key = "c" // a key that lives only in the newest segment
+		}
+		if i%perSeg == 0 {
+			l.Segs = append(l.Segs, nil)
+		}
+		// the last message of a segment and the first of the next share their time
+		l.Segs[len(l.Segs)-1] = append(l.Segs[len(l.Segs)-1], rec14{key, fmt.Sprintf("v%02d", i), int64(i - i/perSeg)})
+	}
+	return l
+}
+
+// Shapes14: the base logs (all V2, both indexes).
+var Shapes14 = []Log14{
+	uniform14("3 segments x 2", 3, 2),
+	uniform14("3 segments x 3", 3, 3),
+	// records of different sizes, an empty key, empty values
+	{"3 segments, mixed sizes", [][]rec14{
+		{{"a", "", 0}, {"", "v01", 1}},
+		{{"b", "0123456789012345678901234567890123456789", 1}, {"a", "x", 2}},
+		{{"c", "y", 2}, {"b", "", 3}},
+	}},
+	// one-message segments, equal times running through three segments
+	{"4 segments 1-2-1-2", [][]rec14{
+		{{"a", "v00", 0}},
+		{{"b", "v01", 0}, {"a", "v02", 1}},
+		{{"a", "v03", 1}},
+		{{"c", "v04", 1}, {"b", "v05", 2}},
+	}},
+	uniform14("5 segments x 2", 5, 2),
+}
 
 type pub struct {
 	Off int64
@@ -29,25 +75,26 @@ type pub struct {
 	End int64
 }
 
-// Build14 creates a three-segment V2 log with both indexes.
-func Build14(dir string, perSeg int) ([]pub, []string, error) {
+var opts14 = klevdb.Options{KeyIndex: true, TimeIndex: true, Rollover: 1 << 20}
+
+// Build14 creates the base log: one Publish call per segment with Rollover 1
+// (every call on a non-empty head starts a new segment).
+func Build14(dir string, sh Log14) ([]pub, []string, error) {
 	vrand.Reset()
-	// a record is 36+1+3 = 40 bytes; roll when the segment holds perSeg records
-	roll := int64(8 + 40*perSeg - 1)
-	o := klevdb.Options{KeyIndex: true, TimeIndex: true, Rollover: roll}
+	o := opts14
+	o.Rollover = 1
 	lg, err := klevdb.Open(dir, o)
 	if err != nil {
 		return nil, nil, err
 	}
-	n := perSeg * 3
-	for i := 0; i < n; i++ {
-		key := []byte{"ab"[i%2]}
-		if i == n-2 {
-			key = []byte("c") // a key that lives only in the newest segment
+	n := 0
+	for _, seg := range sh.Segs {
+		var ms []klevdb.Message
+		for _, r := range seg {
+			ms = append(ms, klevdb.Message{Time: time.UnixMicro(1_000_000 + r.DT).UTC(), Key: []byte(r.K), Value: []byte(r.V)})
+			n++
 		}
-		// the last message of a segment and the first of the next share their time
-		m := klevdb.Message{Time: time.UnixMicro(int64(1_000_000 + i - i/perSeg)).UTC(), Key: key, Value: []byte(fmt.Sprintf("v%02d", i))}
-		if _, err := lg.Publish([]klevdb.Message{m}); err != nil {
+		if _, err := lg.Publish(ms); err != nil {
 			return nil, nil, err
 		}
 	}
@@ -69,12 +116,15 @@ func Build14(dir string, perSeg int) ([]pub, []string, error) {
 		if !clean {
 			return nil, nil, fmt.Errorf("fresh segment %s does not parse", ln)
 		}
+		if len(recs) != len(sh.Segs[si]) {
+			return nil, nil, fmt.Errorf("segment %s holds %d records, want %d", ln, len(recs), len(sh.Segs[si]))
+		}
 		for _, r := range recs {
 			pubs = append(pubs, pub{Off: r.Off, T: r.T, Key: r.Key, Val: r.Val, Seg: si, Pos: r.Pos, End: r.Pos + r.Size})
 		}
 	}
-	if len(pubs) != n || len(logs) != 3 {
-		return nil, nil, fmt.Errorf("built %d messages in %d segments, want %d in 3", len(pubs), len(logs), n)
+	if len(pubs) != n || len(logs) != len(sh.Segs) {
+		return nil, nil, fmt.Errorf("built %d messages in %d segments, want %d in %d", len(pubs), len(logs), n, len(sh.Segs))
 	}
 	return pubs, logs, nil
 }
@@ -187,7 +237,7 @@ func sweep(pubs []pub) []call {
 			return []klevdb.Message{m}, nil
 		}, -1, "", 0})
 	}
-	for _, k := range []string{"a", "b", "c", "zz"} {
+	for _, k := range []string{"a", "b", "c", "zz", ""} {
 		k := k
 		cs = append(cs, call{fmt.Sprintf("GetByKey(%s)", k), func(l klevdb.Log) ([]klevdb.Message, error) {
 			m, err := l.GetByKey([]byte(k))
@@ -237,12 +287,12 @@ func sameMsg(m klevdb.Message, p pub) bool {
 }
 
 // Base14 builds the base log; returns published messages, log file names and contents.
-func Base14(dir string, perSeg int) ([]pub, []string, [][]byte, error) {
+func Base14(dir string, sh Log14) ([]pub, []string, [][]byte, error) {
 	_ = os.RemoveAll(dir)
 	if err := os.MkdirAll(dir, 0o700); err != nil {
 		return nil, nil, nil, err
 	}
-	pubs, logs, err := Build14(dir, perSeg)
+	pubs, logs, err := Build14(dir, sh)
 	if err != nil {
 		return nil, nil, nil, err
 	}
@@ -279,7 +329,7 @@ func run14(t Task) Result {
 		t.Hi = len(ds)
 	}
 	calls := sweep(pubs)
-	o := klevdb.Options{KeyIndex: true, TimeIndex: true, Rollover: int64(8 + 40*Shapes14[t.Shape] - 1)}
+	o := opts14
 	// reference answers from the undamaged log
 	refDir := filepath.Join(scratch(), "ref14")
 	copyDir(base, refDir)
@@ -325,7 +375,7 @@ func run14(t Task) Result {
 			tagV1 = " [V2 header overwritten with the base offset: file reads as V1]"
 		}
 		fail := func(sig, format string, a ...any) {
-			res.Problems = append(res.Problems, Problem{Sig: sig + tagV1, Msg: fmt.Sprintf(format, a...), Damage: fmt.Sprintf("%s [%d records per segment]", d.Desc, Shapes14[t.Shape])})
+			res.Problems = append(res.Problems, Problem{Sig: sig + tagV1, Msg: fmt.Sprintf(format, a...), Damage: fmt.Sprintf("%s [base log: %s]", d.Desc, Shapes14[t.Shape].Name)})
 		}
 		// records overlapping the damaged bytes
 		damaged := map[int64]bool{}
@@ -393,10 +443,10 @@ func run14(t Task) Result {
 				}
 				if !same {
 					tag := ""
-					if strings.HasPrefix(c.name, "GetByTime(") && len(ref[i].offs) == 1 && pubs[ref[i].offs[0]].Seg+1 == d.Seg {
+					if strings.HasPrefix(c.name, "GetByTime(") && len(ref[i].offs) == 1 && pubs[ref[i].offs[0]].Seg < d.Seg {
 						// Known finding (DESIGN.md 5, D20): the segment walk goes from the newest segment
-						// to the oldest and reads the first message of the newer segment, which has the
-						// same time, before it finds the older answer
+						// to the oldest and reads the first message of a newer segment, which has the
+						// same time (as has every message in between), before it finds the older answer
 						var first *pub
 						for k := range pubs {
 							if pubs[k].Seg == d.Seg {
@@ -405,14 +455,15 @@ func run14(t Task) Result {
 							}
 						}
 						if first != nil && first.T == pubs[ref[i].offs[0]].T {
-							tag = " [GetByTime answer is followed by a message of the same time in the damaged next segment]"
+							tag = " [GetByTime answer has the same time as the first message of the damaged newer segment]"
 						}
 					}
 					if c.startSeg >= 0 && c.startSeg == d.Seg {
 						// Known finding (DESIGN.md 5, D14): the scan reads the candidates of the
 						// key's hash that are stored before the start offset in the start segment
+						// (only when the damage is in one of those candidates or in the file header)
 						for _, pb := range pubs {
-							if pb.Seg == d.Seg && string(pb.Key) == c.key && (c.start < 0 || pb.Off < c.start || true) {
+							if pb.Seg == d.Seg && string(pb.Key) == c.key && (damaged[pb.Off] || d.Lo < 8) {
 								tag = " [ConsumeByKey cursor starts in the damaged segment, which holds messages of that key]"
 							}
 						}
